@@ -483,6 +483,8 @@ func (fr *frame) doLookup(x *ssa.Lookup, st *state) {
 		m := fr.val(x.X)
 		k := fr.val(x.Index)
 		val := vc.mapGet(st, m, mt, k.S)
+		val = T{vc.define(fr.pfx+x.Name()+"_v", val.Sort, val.S), val.Sort, val.GT}
+		fr.assumeLoaded(val, st)
 		if x.CommaOk {
 			fr.tuples[x] = []T{val, {vc.mapHas(st, m, mt, k.S), "Bool", types.Typ[types.Bool]}}
 		} else {
@@ -557,6 +559,8 @@ func (fr *frame) doNext(x *ssa.Next, st *state) {
 	vc.assume(st.reach, fmt.Sprintf("(=> (not %s) (forall ((q %s)) (! (= (select %s q) (select %s q)) :pattern ((select %s q)) :pattern ((select %s q)))))", ok, ks, seen, it.dom0, seen, it.dom0))
 	vc.heapSet(st, it.seen, fmt.Sprintf("(ite %s (store %s %s true) %s)", ok, seen, k, seen))
 	val := vc.mapGet(st, it.m, it.mt, k)
+	val = T{vc.define("it_v", val.Sort, val.S), val.Sort, val.GT}
+	fr.assumeLoaded(val, st)
 	fr.tuples[x] = []T{{ok, "Bool", types.Typ[types.Bool]}, kt, val}
 }
 
